@@ -552,6 +552,11 @@ pub const ZERO_BLOCK_COUNTS: [usize; 32] = [
     65_537, 500_000,
 ];
 
+/// the counts affordable in this run: interpreter / sanitizer runs stop at 257 blocks
+pub fn zero_block_counts() -> &'static [usize] {
+    if crate::util::REDUCED.load(Ordering::Relaxed) { &ZERO_BLOCK_COUNTS[..28] } else { &ZERO_BLOCK_COUNTS }
+}
+
 /// a seed-sized block of documented special content for a type: the
 /// zero-seed substitutes (the generator must treat them as ordinary data)
 pub fn preset_block(type_name: &str, len: usize) -> Vec<u8> {
